@@ -150,4 +150,49 @@ PadTypes == {6, 7, 8, 9, 32, 33, 65, 69, 71, 72, 76, 77, 78, 79, 80, 81, 83, 84,
 HeaderSize(kind) == CASE kind = "base" -> 16 [] kind = "v1" -> 32 [] kind = "v2" -> 40 [] kind = "var" -> 32
 HeaderVersion(kind) == CASE kind = "base" -> 1 [] kind = "v1" -> 1 [] kind = "v2" -> 2 [] kind = "var" -> 1
 Pad(code, osz) == IF code \in PadTypes THEN osz % 4 ELSE 0
+(***************************************************************************)
+(* Members the encoder derives from the payload by design (length / count   *)
+(* fields).  Every other member is a field value: the encoder writes what   *)
+(* the caller (or the decoder) put there.  Frozen from the pinned tree      *)
+(* after the repairs of DESIGN section 7 (GlobalMarker, AttributeEvent ...).*)
+(***************************************************************************)
+EncoderOwned(cls) ==
+  CASE cls = "AfdxFrame" -> {"payLoadLength"}
+       [] cls = "AppText" -> {"textLength"}
+       [] cls = "AttributeEvent" -> {"attributeDefinitionPathLength", "dataLength", "mainAttributableObjectPathLength", "memberPathLength"}
+       [] cls = "CanFdErrorFrame64" -> {"validDataBytes"}
+       [] cls = "CanFdMessage64" -> {"validDataBytes"}
+       [] cls = "DiagRequestInterpretation" -> {"ecuQualifierLength", "serviceQualifierLength", "variantQualifierLength"}
+       [] cls = "DistributedObjectMember" -> {"dataLength", "pathLength"}
+       [] cls = "EnvironmentVariable" -> {"dataLength", "nameLength"}
+       [] cls = "EthernetErrorEx" -> {"frameLength", "structLength"}
+       [] cls = "EthernetErrorForwarded" -> {"frameLength", "structLength"}
+       [] cls = "EthernetFrame" -> {"payLoadLength"}
+       [] cls = "EthernetFrameEx" -> {"frameLength", "structLength"}
+       [] cls = "EthernetFrameForwarded" -> {"frameLength", "structLength"}
+       [] cls = "EthernetRxError" -> {"frameDataLength", "structLength"}
+       [] cls = "EventComment" -> {"textLength"}
+       [] cls = "FlexRayVFrReceiveMsgEx" -> {"dataCount"}
+       [] cls = "FunctionBus" -> {"dataLength", "nameLength"}
+       [] cls = "GlobalMarker" -> {"descriptionLength", "groupNameLength", "markerNameLength"}
+       [] cls = "Most150AllocTab" -> {"length"}
+       [] cls = "Most150Message" -> {"msgLen"}
+       [] cls = "Most150MessageFragment" -> {"firstDataLen"}
+       [] cls = "Most150Pkt" -> {"pktDataLength"}
+       [] cls = "Most150PktFragment" -> {"firstDataLen"}
+       [] cls = "Most50Message" -> {"msgLen"}
+       [] cls = "Most50Pkt" -> {"pktDataLength"}
+       [] cls = "MostAllocTab" -> {"length"}
+       [] cls = "MostEthernetPkt" -> {"pktDataLength"}
+       [] cls = "MostEthernetPktFragment" -> {"firstDataLen"}
+       [] cls = "MostPkt" -> {"pktDataLength"}
+       [] cls = "MostPkt2" -> {"pktDataLength"}
+       [] cls = "RestorePointContainer" -> {"dataLength"}
+       [] cls = "SerialEvent" -> {"general.dataLength", "general.timeStampsLength"}
+       [] cls = "SystemVariable" -> {"dataLength", "nameLength"}
+       [] cls = "TestStructure" -> {"executingObjectNameLength", "nameLength", "textLength"}
+       [] cls = "TriggerCondition" -> {"triggerBlockNameLength", "triggerConditionLength"}
+       [] cls = "WlanFrame" -> {"frameLength"}
+       [] OTHER -> {}
+OwnedOK(cls, members) == \A i \in 1..Len(members) : members[i] \in EncoderOwned(cls)
 =============================================================================
